@@ -319,6 +319,14 @@ func main() {
 			emit(o)
 		}
 	}
+	// (4) object-built schemas: attributes that only exist on schema objects before any HCL evaluation touched them
+	for _, d := range ds {
+		for label, s := range objectSchemas(d.name) {
+			o := obs{Dialect: d.name, Kind: "objects", Fixpoint: true, Type: label}
+			roundTrip(d, s, &o)
+			emit(o)
+		}
+	}
 	w.Flush()
 	of.Close()
 	wf.Flush()
